@@ -15,7 +15,13 @@ Check (C06_membership_per_member_kind : forall e eids i,
   (forall m, m_has e eids (MMaybe m) i = true) /\
   (forall sid a b c d o, m_has e eids (MRestrict sid a b c d o) i = NS.mem i (env_mask e sid)) /\
   (forall k a d, m_has e eids (MChange k a d) i = NM.mem i (cs_get e k)) /\
-  (forall sid, m_has e eids (MDrain sid) i = NS.mem i (env_mask e sid))).
+  (forall sid, m_has e eids (MDrain sid) i = NS.mem i (env_mask e sid)) /\
+  (forall bop a b, m_has e eids (MBitOp bop a b) i = bitop_has bop a b i)).
+Check (C06_bit_set_combinations : forall a b i,
+  bitop_has 0 a b i = existsb (N.eqb i) a && existsb (N.eqb i) b /\
+  bitop_has 1 a b i = existsb (N.eqb i) a || existsb (N.eqb i) b /\
+  bitop_has 2 a b i = xorb (existsb (N.eqb i) a) (existsb (N.eqb i) b) /\
+  bitop_has 3 a b i = negb (existsb (N.eqb i) a)).
 Check (C06_join_visits_intersection : forall e av eids hs ms l e',
   env_join e av eids hs (JSeq None) ms = (e', JItems l) ->
   StronglySorted N.lt (map fst l) /\ (forall i, In i (map fst l) <-> all_have e eids ms i = true) /\
